@@ -441,3 +441,4 @@ RULES = [
 
 from . import common as _common_purity
 RULES = RULES + _common_purity.purity_rules("C16")
+RULES = RULES + _common_purity.bundle_rules("C16")
